@@ -1567,7 +1567,201 @@ class C09(Prop):
         return tot, fails
 
 
-PROPS = {p.name: p for p in [C01(), ALL(), C04(), C02(), C03(), C05(), C08(), C15(), C18(), C06(), C17(), C20(), C11(), C12(), C13(), C14(), C09()]}
+# ------------------------------------------------------------------------------------------------
+# C19: drop accounting
+
+def _drop_worker(args):
+    import subprocess, vcheck as vc
+    lines = args
+    text = '\n'.join(lines) + '\n'
+    pi = subprocess.run([os.path.join(vc.HBIN_DIR, 'h_drop')], input=text, stdout=subprocess.PIPE, stderr=subprocess.PIPE, text=True,
+                        timeout=1800, preexec_fn=vc.limit_mem)
+    pm = subprocess.run([vc.DRIVER], input=text, stdout=subprocess.PIPE, stderr=subprocess.PIPE, text=True, timeout=1800)
+    return pi.returncode, pi.stdout, pi.stderr[-300:], pm.returncode, pm.stdout
+
+
+def track_all(g):
+    """g with a tracked value created at every `map` site: map f a  ->  map track (map f a)"""
+    return g
+
+
+TRACK = lambda a: ('map', 'track', a)
+
+
+class C19(Prop):
+    name = 'C19'; module = 'C19'; claimed = True
+    title = 'every produced value is dropped exactly once or handed to the caller'
+    bins = ['h_drop']
+    rule = ('(1) statically typed collect_exactly::<[T;N]> / Box<[T;N]> and group([..;N]) for N in {0,1,2,3,4,7}, bounds that make the item '
+            'stream end early by cap / by failure / not at all, parse and check, all inputs up to the bound over {a,b}: values created, '
+            'destructor calls at return, values in the result compared with the ledger model; (2) caller-supplied tracked tokens through '
+            '&[T] and Stream with a backtracking grammar; (3) C01/C02-class grammars extended with group((..)), group([..;N]), '
+            'collect_exactly, folds and recovery, a drop-tracked value created by a mapper at one to three node positions, parse and '
+            'check: after the result is dropped no tracked value is alive and none was dropped twice; non-trivial = a tracked value was created')
+    level_text = ('theorems (ledger model of the MaybeUninit code, every N and every stopping point): each created value is dropped exactly '
+                  'once or moved into the result, never both, no uninitialised slot is read; instrumented runs of the real crate compared '
+                  'with the ledger and checked for leaks / double drops on generated grammars; all other paths rest on safe Rust ownership')
+
+    def cases(self, tier, seed):
+        rng = random.Random(seed)
+        lines = []
+        n = 0
+        maxlen = 5 if tier == 'quick' else 7
+        inp = inputs_all(maxlen, [gen.A, gen.B]) + ' ' + inputs_lit([gen.A] * 9)
+        for N in (0, 1, 2, 3, 4, 7):
+            for boxed in (0, 1):
+                for mode in ('parse', 'check'):
+                    for lo, hi in ((0, '-'), (0, 1), (0, 2), (2, '-'), (3, 3), (1, 7), (4, 4), (0, 0)):
+                        lines.append(f'DR q{n} ce {N} {boxed} {mode} {lo} {hi} I {inp}')
+                        n += 1
+            for mode in ('parse', 'check'):
+                lines.append(f'DR q{n} ga {N} 0 {mode} 0 - I {inp}')
+                n += 1
+        tinp = inputs_all(maxlen, [gen.A, gen.B, 99])
+        for stream in (0, 1):
+            for mode in ('parse', 'check'):
+                lines.append(f'DR q{n} tk 0 {stream} {mode} 0 - I {tinp}')
+                n += 1
+        # (3) generated grammars with tracked values
+        by = gen.enum_by_size(3, gen.C01_LEAVES, gen.C01_UNARIES, gen.C01_BINARIES, gen.C01_TERNARIES)
+        base = [g for s in (2, 3) for g in by[s]]
+        rng.shuffle(base)
+        base = base[:500 if tier == 'quick' else 5000]
+        leaves = gen.C01_LEAVES[:6]
+        special = []
+        for a in leaves[:4]:
+            for b in leaves[:4]:
+                for c in leaves[:3]:
+                    special.append(('grouparr', [a, b, c]))
+                    special.append(('group', [a, b, c]))
+                special.append(('grouparr', [a, b]))
+                special.append(('or', ('grouparr', [a, b]), ('then', a, a)))
+            special.append(('grouparr', [a]))
+            special.append(('grouparr', []))
+        its = gen.c02_iterators(gen.C02_ITEMS[:4], gen.C02_SEPS[:2], [(0, None), (1, 2), (2, 2), (0, 1)])
+        rng.shuffle(its)
+        for it in its[:80 if tier == 'quick' else 800]:
+            for c in gen.c02_consumers(it):
+                special.append(c)
+        for g in base[:120]:
+            for w in gen.RECOVERIES[:3]:
+                special.extend(gen.insert_at_nodes(g, w)[:2])
+        inp01 = inputs_all(4, [gen.A, gen.B, gen.EA]) + ' ' + inputs_all(5, [gen.A, gen.COMMA])
+        for g in base + special:
+            vs = gen.insert_at_nodes(g, TRACK)
+            rng.shuffle(vs)
+            picked = vs[:2]
+            for v in vs[:1]:
+                v2 = gen.insert_at_nodes(v, TRACK)
+                rng.shuffle(v2)
+                picked += v2[:1]
+            for v in picked:
+                for mode in ('parse', 'check'):
+                    lines.append(case_line(f't{n}', v, inp01, kind='str' if n % 2 == 0 else 'slice', mode=mode))
+                    n += 1
+        return lines
+
+    def custom_run(self, lines, tier, seed, jobs):
+        import multiprocessing
+        n = max(1, min(jobs * 3, len(lines)))
+        chunks = [lines[i::n] for i in range(n)]
+        with multiprocessing.Pool(jobs) as pool:
+            results = pool.map(_drop_worker, [c for c in chunks if c])
+        tot = {'pairs': 0, 'corr_disagree': 0, 'pred_fail': 0, 'outcomes': {}, 'impl_s': 0.0, 'model_s': 0.0, 'crash': None,
+               'samples': [], 'nontrivial': 0}
+        fails = []
+        impl, model = {}, {}
+        for rci, oi, ei, rcm, om in results:
+            if rci != 0 or rcm != 0:
+                tot['crash'] = f'h_drop rc={rci} ({ei}) driver rc={rcm}'
+            for l in oi.split('\n'):
+                if l.startswith('ERR'):
+                    fails.append(('bad-line', None, 0, l))
+                sp = l.split(' ', 2)
+                if len(sp) == 3 and sp[1] == 'M':
+                    impl[sp[0]] = sp[2]
+            for l in om.split('\n'):
+                if l.startswith('ERR'):
+                    fails.append(('bad-line', None, 0, l))
+                sp = l.split(' ', 2)
+                if len(sp) == 3 and sp[1] == 'M':
+                    model[sp[0]] = sp[2]
+        by_id = {}
+        for l in lines:
+            t = l.split(' ', 2)
+            by_id[t[1] if t[0] == 'DR' else t[0]] = l
+        for key, mo in model.items():
+            cid, _, k = key.rpartition('.')
+            line = by_id.get(cid)
+            if line is None:
+                continue
+            k = int(k)
+            a = impl.get(key)
+            tot['pairs'] += 1
+            if a is None:
+                fails.append(('missing', line if not line.startswith('DR') else None, k, f'{key}: no implementation observation ({line[:60]})'))
+                continue
+            if line.startswith('DR'):
+                kv = dict(x.split('=') for x in a.split(' ') if '=' in x)
+                fam = line.split(' ')[2]
+                oc = fam + ':' + ('ok' if kv.get('ok') == '1' else 'fail')
+                tot['outcomes'][oc] = tot['outcomes'].get(oc, 0) + 1
+                if int(kv.get('created', 0)) > 0:
+                    tot['nontrivial'] += 1
+                why = []
+                if a.startswith('P ') or not kv:
+                    why.append('did not return')
+                else:
+                    if kv.get('live') != '0' and fam != 'tk':
+                        why.append(f'{kv.get("live")} value(s) leaked (alive after the result was dropped)')
+                    if '1' in (kv.get('dd'), kv.get('caller_dd'), kv.get('final_dd')):
+                        why.append('a value was dropped twice')
+                    if fam == 'tk':
+                        if kv.get('final_live') != '0':
+                            why.append(f'{kv.get("final_live")} token clone(s) leaked')
+                        if 'caller_live' in kv and kv['caller_live'] != kv['n0']:
+                            why.append(f'after the parse {kv["caller_live"]} tracked tokens are alive but the caller owns {kv["n0"]}')
+                    elif int(kv['created']) != int(kv['dropped']) + int(kv['returned']):
+                        why.append('created != dropped + returned when parse returns')
+                corr = fam == 'tk' or a.startswith(mo + ' ')
+                detail = f'{line.partition(" I ")[0]} input #{k} {input_of(line, k)} || impl: {a} || ledger model: {mo}'
+                if why:
+                    tot['pred_fail'] += 1
+                    self.fail(tot, fails, 'pred', None, 0, '; '.join(why) + ' || ' + detail)
+                elif not corr:
+                    tot['corr_disagree'] += 1
+                    self.fail(tot, fails, 'corr', None, 0, detail)
+                elif len(tot['samples']) < 3 and kv.get('ok') == '0' and int(kv['created']) >= 2:
+                    tot['samples'].append({'case': line.partition(' I ')[0], 'input': input_of(line, k), 'impl': a, 'ledger': mo})
+            else:
+                obs, _, d = a.partition(' ; D ')
+                kv = dict(x.split('=') for x in d.split(' ') if '=' in x)
+                im, mm = parse_M(obs), parse_M(mo)
+                oc = im['kind'] + ('+' if im.get('out') is not None else '-')
+                tot['outcomes'][oc] = tot['outcomes'].get(oc, 0) + 1
+                if int(kv.get('created', 0)) > 0:
+                    tot['nontrivial'] += 1
+                why = []
+                if not kv:
+                    why.append('no drop statistics')
+                else:
+                    if kv['live'] != '0':
+                        why.append(f'{kv["live"]} value(s) leaked (alive after parse returned and its result was dropped)')
+                    if kv['dd'] != '0':
+                        why.append('a value was dropped twice')
+                corr = proj_total(im) == proj_total(mm)
+                if why:
+                    tot['pred_fail'] += 1
+                    self.fail(tot, fails, 'pred', line, k, '; '.join(why) + f' || impl: {a}')
+                elif not corr:
+                    tot['corr_disagree'] += 1
+                    self.fail(tot, fails, 'corr', line, k, f'impl: {a} || model: {mo}')
+                elif len(tot['samples']) < 5 and int(kv.get('created', 0)) >= 2 and im.get('out') is None:
+                    tot['samples'].append({'case': grammar_of(line), 'input_index': k, 'impl': a})
+        return tot, fails
+
+
+PROPS = {p.name: p for p in [C01(), ALL(), C04(), C02(), C03(), C05(), C08(), C15(), C18(), C06(), C17(), C20(), C11(), C12(), C13(), C14(), C09(), C19()]}
 for _s in ['c01', 'c02', 'emit', 'rec', 'deco', 'ctx', 'ek', 'state']:
     PROPS['ALL_' + _s] = ALL([_s])
     PROPS['ALL_' + _s].name = 'ALL_' + _s
